@@ -1598,3 +1598,12 @@ COQ_PROPS = (list(COQ_PROPS) if isinstance(COQ_PROPS, (list, tuple)) else [COQ_P
 THEOREMS = list(THEOREMS) + ['SRC_key_regex_filter', 'SRC_make_key_regex_filter']
 TABLES = sorted(set(list(globals().get('TABLES') or []) + ['t_src_filter'])) if globals().get('TABLES') else None
 TRUSTED_BASE = list(TRUSTED_BASE) + ['tools/tables/py2coq.py + t_src_filter.py: translator of make_key_regex_filter into Gallina (re.compile / search are parameters)']
+
+
+# link (integrator): the abstract extension model (coq/Ext) is tied to the raw JSON content model (coq/Content, coq/Json,
+# coq/Cli) through Link/Abs.v to_content / of_content; LinkPart compares to_content with the real _content on every run
+from props import link as _link
+COQ_PROPS = (list(COQ_PROPS) if isinstance(COQ_PROPS, (list, tuple)) else [COQ_PROPS]) + ['Props/C07link.v']
+THEOREMS = list(THEOREMS) + ['C07_C19_inject_models_agree']
+if globals().get('TABLES'): TABLES = sorted(set(list(TABLES) + _link.TABLES))
+PARTS = list(PARTS) + [_link.LinkPart]
